@@ -323,6 +323,7 @@ def replay_path(prog: dict, basedb: str, held: list[dict], workers: list[int], u
         for sd in prog["stages"]:
             for td in sd["tasks"]:
                 reg.register(task_class_name(td["name"]), VerifTask(td["name"]))
+                reg.register_verifier("vverif", __import__("harness.vtask", fromlist=["vverif"]).vverif)
         b, c = core.shared_resilience()
         cfg = QueueProcessorConfig.from_handler_config(None)
         cfg.enable_lock_heartbeat = False
